@@ -30,6 +30,14 @@ def compare(expected, got, mode="value"):
             fin = np.isfinite(ef)
             scale = float(np.max(np.abs(ef[fin]))) if fin.any() else 1.0
             ok = np.isclose(gf, ef, rtol=rtol, atol=rtol * max(1.0, scale), equal_nan=True)
+            if not ok.all() and ek in "fc" and gk in "fc" and e.dtype != g.dtype:
+                # cubed and NumPy may carry a value in different precisions (cubed's nanmedian of float32 data is
+                # declared float64): a value beyond the range of the narrower dtype is inf on one side and finite on
+                # the other - the same value as far as the narrower dtype can express it
+                lim = float(np.finfo(min(e.dtype, g.dtype, key=lambda d: np.finfo(d).bits)).max) * 0.999
+                over = (np.isinf(ef) & np.isfinite(gf) & (np.abs(gf) > lim) & (np.sign(ef.real) == np.sign(gf.real))) | (
+                    np.isinf(gf) & np.isfinite(ef) & (np.abs(ef) > lim) & (np.sign(ef.real) == np.sign(gf.real)))
+                ok = ok | over
         if ok.all():
             return None
         bad = np.argwhere(~ok)
